@@ -398,5 +398,7 @@ MUTANTS = [
     M("update-drops-rest", TY, "RenderArgs.update#3", "if render_cls else namespaces),", "if render_cls else namespaces[:1]),", {"R7"}),
     M("convert-child-empty", TY, "RenderArgs.convert", "            return RenderArgs(render_cls, self)\n", "            return RenderArgs(render_cls)\n", {"R7"}),
     M("to-render-args-no-self", TY, "ArgsNamespace.to_render_args", "return RenderArgs(render_cls or type(self)._RENDER_CLS, self)", "return RenderArgs(render_cls or type(self)._RENDER_CLS)", {"R7"}),
+    M("hash-by-identity", TY, "RenderArgs.__hash__", "return hash((self.render_cls, tuple(self._namespaces.values())))", "return hash((self.render_cls, tuple(None if ns is self.render_cls._ALL_DEFAULT_ARGS[c] else ns for c, ns in self._namespaces.items())))", {"R5"}),
+    M("set-class-in-table", TY, "ArgsNamespace.__or__", "            if issubclass(other_render_cls, self_render_cls):\n                return RenderArgs(other_render_cls, other, self)", "            if self_render_cls in other._namespaces:\n                return RenderArgs(other_render_cls, other, self)\n            if other.render_cls in self_render_cls._ALL_DEFAULT_ARGS:\n                return RenderArgs(self_render_cls, other, self)", {"R3"}),
     M("twin-rename", TY, "RenderArgs.__init__", "namespaces_dict", "ns_dict", twin=True, count=0),
 ]
